@@ -859,6 +859,9 @@ struct Op<'a> {
     into: bool,
     /// after this many with-index calls take the wrapped iterator back with `source()`
     split: Option<usize>,
+    /// `consume` operations: the std consumer applied after `after` plain calls
+    m: &'a str,
+    after: usize,
 }
 
 fn parse_op<'a>(op: &'a str, rest: &[&'a str]) -> Op<'a> {
@@ -872,6 +875,8 @@ fn parse_op<'a>(op: &'a str, rest: &[&'a str]) -> Op<'a> {
         via: opt_arg("via", rest).unwrap_or("boxed"),
         into: opt_arg("wvia", rest) == Some("into"),
         split: opt_arg("split", rest).map(|x| x.parse().unwrap()),
+        m: opt_arg("m", rest).unwrap_or("count"),
+        after: opt_arg("after", rest).map(|x| x.parse().unwrap()).unwrap_or(0),
     }
 }
 
@@ -882,6 +887,244 @@ fn access_names<const D: usize>(ads: &[TAd]) -> Option<[&'static str; D]> {
     }
 }
 
+
+// ---------------------------------------------------------------------------------------------
+// std's consumers on top of `next` (count / last / nth / fold / for_each with a panicking closure)
+// ---------------------------------------------------------------------------------------------
+
+/// `after` plain calls, then the consumer `m`:
+///   count        → `count=<n>`
+///   last         → `last=<item>`
+///   fold         → `fold=<item>,<item>,…`  (the whole remaining sequence, through `Iterator::fold`)
+///   nth.<j>      → `nth=<item> | <records of n further calls on the survivor>`
+///   panic.<p>    → `seen=<items> panicked|finished | <records of n further calls on the survivor>`
+///                  (`by_ref().for_each` with a closure that panics at its p-th element)
+fn consume<I: ExactSizeIterator>(
+    make: impl FnOnce() -> I,
+    op: &Op,
+    mut show: impl FnMut(I::Item) -> String,
+) -> String {
+    let mut it = match catch(make) {
+        Ok(it) => it,
+        Err(k) => return panic_str(k),
+    };
+    for _ in 0..op.after {
+        if let Err(k) = catch(|| it.next()) {
+            return panic_str(k);
+        }
+    }
+    let parts: Vec<&str> = op.m.split('.').collect();
+    let arg: usize = parts.get(1).map(|x| x.parse().unwrap()).unwrap_or(0);
+    match parts[0] {
+        "count" => match catch(move || it.count()) {
+            Ok(c) => format!("count={}", c),
+            Err(k) => panic_str(k),
+        },
+        "last" => match catch(move || it.last()) {
+            Ok(x) => format!("last={}", x.map(|x| show(x)).unwrap_or("-".into())),
+            Err(k) => panic_str(k),
+        },
+        "fold" => {
+            let r = catch(move || {
+                it.fold(Vec::<String>::new(), |mut acc, x| {
+                    acc.push(show(x));
+                    acc
+                })
+            });
+            match r {
+                Ok(v) => format!("fold={}", if v.is_empty() { "-".to_string() } else { v.join(",") }),
+                Err(k) => panic_str(k),
+            }
+        }
+        "nth" => {
+            let x = match catch(|| it.nth(arg)) {
+                Ok(x) => x,
+                Err(k) => return panic_str(k),
+            };
+            let head = format!("nth={}", x.map(|x| show(x)).unwrap_or("-".into()));
+            let mut recs = vec![];
+            records(&mut it, op.n, &mut show, &mut recs);
+            format!("{} | {}", head, recs.join(";"))
+        }
+        "panic" => {
+            let mut seen: Vec<String> = vec![];
+            let r = catch(|| {
+                let mut i = 0usize;
+                it.by_ref().for_each(|x| {
+                    seen.push(show(x));
+                    if i == arg {
+                        panic!("closure panics at element {}", i);
+                    }
+                    i += 1;
+                })
+            });
+            let how = match r {
+                Ok(()) => "finished",
+                Err(PanicKind::Explicit) => "panicked",
+                Err(k) => return panic_str(k),
+            };
+            let mut recs = vec![];
+            records(&mut it, op.n, &mut show, &mut recs);
+            format!(
+                "seen={} {} | {}",
+                if seen.is_empty() { "-".to_string() } else { seen.join(",") },
+                how,
+                recs.join(";")
+            )
+        }
+        other => panic!("unknown consumer {}", other),
+    }
+}
+
+fn join_or_dash(v: Vec<String>) -> String {
+    if v.is_empty() { "-".to_string() } else { v.join(",") }
+}
+
+fn consume_boxed_u64<const D: usize>(src: BoxT<u64, D>, op: &Op, base: Base) -> String {
+    let mut src = src;
+    let into = op.into;
+    let s = match (op.f, op.wi) {
+        ("copy", false) => consume(|| TensorIterator::from(&src), op, |v: u64| v.to_string()),
+        ("copy", true) => consume(
+            || wi!(into, TensorIterator::from(&src)),
+            op,
+            |(i, v): ([usize; D], u64)| format!("{}@{}", v, i.show_idx()),
+        ),
+        ("ref", false) => consume(|| TensorReferenceIterator::from(&src), op, |r: &u64| base.cell(r)),
+        ("ref", true) => consume(
+            || wi!(into, TensorReferenceIterator::from(&src)),
+            op,
+            |(i, r): ([usize; D], &u64)| format!("{}@{}", base.cell(r), i.show_idx()),
+        ),
+        ("mut", false) => {
+            consume(|| TensorReferenceMutIterator::from(&mut src), op, |r: &mut u64| base.cell(r))
+        }
+        ("mut", true) => consume(
+            || wi!(into, TensorReferenceMutIterator::from(&mut src)),
+            op,
+            |(i, r): ([usize; D], &mut u64)| format!("{}@{}", base.cell(r), i.show_idx()),
+        ),
+        _ => return "bad-op".into(),
+    };
+    if op.m.starts_with("panic") {
+        // a fresh iterator over the same source object afterwards
+        let fresh: Vec<String> = TensorIterator::from(&src).map(|v| v.to_string()).collect();
+        format!("{} | fresh={}", s, join_or_dash(fresh))
+    } else {
+        s
+    }
+}
+
+fn consume_boxed_owned<const D: usize>(src: BoxT<Dc, D>, op: &Op) -> String {
+    let mut src = src;
+    let into = op.into;
+    let numeric = op.via.ends_with("_numeric");
+    // the source is held by `&mut`, so it can be looked at again afterwards
+    let s = if op.wi {
+        consume(
+            || wi!(into, own!(numeric, TensorOwnedIterator, &mut src)),
+            op,
+            |(i, v): ([usize; D], Dc)| format!("{}@{}", v.show(), i.show_idx()),
+        )
+    } else {
+        consume(|| own!(numeric, TensorOwnedIterator, &mut src), op, |v: Dc| v.show())
+    };
+    if op.m.starts_with("panic") {
+        let fresh: Vec<String> = TensorReferenceIterator::from(&src).map(|d| d.show()).collect();
+        format!("{} | fresh={}", s, join_or_dash(fresh))
+    } else {
+        s
+    }
+}
+
+fn consume_matrix_u64(src: BoxM<u64>, op: &Op, base: Base) -> String {
+    let mut src = src;
+    let into = op.into;
+    macro_rules! both_orders {
+        ($rm:expr, $cm:expr, $show:expr) => {
+            match op.kind {
+                "rowmajor" => consume(|| $rm, op, $show),
+                "colmajor" => consume(|| $cm, op, $show),
+                _ => return "bad-op".into(),
+            }
+        };
+    }
+    let s = match (op.f, op.wi) {
+        ("copy", false) => both_orders!(
+            mi::RowMajorIterator::from(&src),
+            mi::ColumnMajorIterator::from(&src),
+            |v: u64| v.to_string()
+        ),
+        ("copy", true) => both_orders!(
+            wi!(into, mi::RowMajorIterator::from(&src)),
+            wi!(into, mi::ColumnMajorIterator::from(&src)),
+            |(i, v): ((usize, usize), u64)| format!("{}@{}", v, i.show_idx())
+        ),
+        ("ref", false) => both_orders!(
+            mi::RowMajorReferenceIterator::from(&src),
+            mi::ColumnMajorReferenceIterator::from(&src),
+            |r: &u64| base.cell(r)
+        ),
+        ("ref", true) => both_orders!(
+            wi!(into, mi::RowMajorReferenceIterator::from(&src)),
+            wi!(into, mi::ColumnMajorReferenceIterator::from(&src)),
+            |(i, r): ((usize, usize), &u64)| format!("{}@{}", base.cell(r), i.show_idx())
+        ),
+        ("mut", false) => both_orders!(
+            mi::RowMajorReferenceMutIterator::from(&mut src),
+            mi::ColumnMajorReferenceMutIterator::from(&mut src),
+            |r: &mut u64| base.cell(r)
+        ),
+        ("mut", true) => both_orders!(
+            wi!(into, mi::RowMajorReferenceMutIterator::from(&mut src)),
+            wi!(into, mi::ColumnMajorReferenceMutIterator::from(&mut src)),
+            |(i, r): ((usize, usize), &mut u64)| format!("{}@{}", base.cell(r), i.show_idx())
+        ),
+        _ => return "bad-op".into(),
+    };
+    if op.m.starts_with("panic") {
+        let fresh: Vec<String> = match op.kind {
+            "rowmajor" => mi::RowMajorIterator::from(&src).map(|v| v.to_string()).collect(),
+            _ => mi::ColumnMajorIterator::from(&src).map(|v| v.to_string()).collect(),
+        };
+        format!("{} | fresh={}", s, join_or_dash(fresh))
+    } else {
+        s
+    }
+}
+
+fn consume_matrix_owned(src: BoxM<Dc>, op: &Op) -> String {
+    let mut src = src;
+    let into = op.into;
+    let numeric = op.via.ends_with("_numeric");
+    let s = match (op.kind, op.wi) {
+        ("rowmajor", false) => consume(|| own!(numeric, mi::RowMajorOwnedIterator, &mut src), op, |v: Dc| v.show()),
+        ("rowmajor", true) => consume(
+            || wi!(into, own!(numeric, mi::RowMajorOwnedIterator, &mut src)),
+            op,
+            |(i, v): ((usize, usize), Dc)| format!("{}@{}", v.show(), i.show_idx()),
+        ),
+        ("colmajor", false) => {
+            consume(|| own!(numeric, mi::ColumnMajorOwnedIterator, &mut src), op, |v: Dc| v.show())
+        }
+        ("colmajor", true) => consume(
+            || wi!(into, own!(numeric, mi::ColumnMajorOwnedIterator, &mut src)),
+            op,
+            |(i, v): ((usize, usize), Dc)| format!("{}@{}", v.show(), i.show_idx()),
+        ),
+        _ => return "bad-op".into(),
+    };
+    if op.m.starts_with("panic") {
+        let fresh: Vec<String> = match op.kind {
+            "rowmajor" => mi::RowMajorReferenceIterator::from(&src).map(|d| d.show()).collect(),
+            _ => mi::ColumnMajorReferenceIterator::from(&src).map(|d| d.show()).collect(),
+        };
+        format!("{} | fresh={}", s, join_or_dash(fresh))
+    } else {
+        s
+    }
+}
+
 /// every reference flavour over a boxed source: the iterator structs' constructors
 /// (`via=boxed`) or `TensorView` methods (`via=boxedview`), with `split` / `wvia` variants
 fn boxed_u64<const D: usize>(
@@ -889,6 +1132,9 @@ fn boxed_u64<const D: usize>(
     op: &Op,
     base: Base,
 ) -> Result<(String, Option<Vec<usize>>), String> {
+    if op.op == "consume" {
+        return Ok((consume_boxed_u64(src, op, base), None));
+    }
     let mut src = src;
     let n = op.n;
     let into = op.into;
@@ -1072,6 +1318,9 @@ fn tensor_u64<const D: usize>(shape: &[(&'static str, usize)], ads: &[TAd], op: 
 
 /// the owned iterator over a boxed source (`via=boxed[_numeric]`, `via=boxedview`)
 fn boxed_owned<const D: usize>(src: BoxT<Dc, D>, op: &Op) -> Result<(String, Vec<Dc>), String> {
+    if op.op == "consume" {
+        return Ok((consume_boxed_owned(src, op), vec![]));
+    }
     let n = op.n;
     let into = op.into;
     let split = op.split.unwrap_or(0);
@@ -1510,6 +1759,7 @@ fn matrix_u64(rows: usize, cols: usize, ads: &[MAd], op: &Op) -> String {
                 written = Some(w);
                 s
             }
+            (_, _) if op.op == "consume" => consume_matrix_u64(build_matrix(m, ads), op, base),
             (via, f) => {
                 let mut src = build_matrix(m, ads);
                 match (via, f) {
@@ -1627,6 +1877,9 @@ fn matrix_owned(rows: usize, cols: usize, ads: &[MAd], op: &Op) -> String {
         // Safety: `m` and everything built from it die at the end of this block
         let m: &'static mut Matrix<Dc> = unsafe { leaf.lend() };
         let src = build_matrix(m, ads);
+        if op.op == "consume" {
+            (consume_matrix_owned(src, op), vec![])
+        } else {
         match (op.kind, op.wi) {
             ("rowmajor", true) if op.split.is_some() => {
                 run_owned_split(move || wi!(into, own!(numeric, mi::RowMajorOwnedIterator, src)), split, n)
@@ -1641,6 +1894,7 @@ fn matrix_owned(rows: usize, cols: usize, ads: &[MAd], op: &Op) -> String {
                 run_owned_wi(move || wi!(into, own!(numeric, mi::ColumnMajorOwnedIterator, src)), n)
             }
             _ => return "bad-op".into(),
+        }
         }
     };
     if op.op == "left" {
@@ -1731,7 +1985,7 @@ impl Runner {
                 self.case = Case::Matrix(rows, cols, ads);
                 ans
             }
-            [op @ ("iter" | "left"), rest @ ..] => {
+            [op @ ("iter" | "left" | "consume"), rest @ ..] => {
                 let o = parse_op(op, rest);
                 match &self.case {
                     Case::None => "no-source".into(),
@@ -1931,6 +2185,22 @@ fn wvia(g: &mut Gen, wi: bool) -> &'static str {
     }
 }
 
+/// `count`, `last`, `fold`, `nth.<j>`, `panic.<p>` — all five when `all`, else two of them
+fn random_consumers(g: &mut Gen, total: usize, all: bool) -> Vec<String> {
+    let mut v = vec![
+        "count".to_string(),
+        "last".to_string(),
+        "fold".to_string(),
+        format!("nth.{}", g.rng.below(total + 2)),
+        format!("panic.{}", g.rng.below(total + 1)),
+    ];
+    if !all {
+        g.rng.shuffle(&mut v);
+        v.truncate(2);
+    }
+    v
+}
+
 fn emit_tensor_ops(g: &mut Gen, shape: &[(&'static str, usize)], ads: &[TAd], all: bool) {
     let total: usize = shape.iter().map(|s| s.1).product();
     let mut combos: Vec<(&str, bool)> = vec![];
@@ -1960,6 +2230,17 @@ fn emit_tensor_ops(g: &mut Gen, shape: &[(&'static str, usize)], ads: &[TAd], al
         let w = wvia(g, true);
         g.op(format!("iter f={} wi=1 split={} n={} via={}{}", f, k, total + 3, via, w));
         g.count(&format!("tensor.split.f={}", f));
+    }
+    // std's consumers on top of `next`, after a prefix of plain calls
+    let consumers = random_consumers(g, total, all);
+    for m in consumers {
+        let f = *g.rng.pick(&FLAVOURS);
+        let wi = g.rng.chance(1, 2);
+        let via = if f == "owned" && g.rng.chance(1, 2) { "boxed_numeric" } else { "boxed" };
+        let w = wvia(g, wi);
+        let after = g.rng.below(total + 2);
+        g.op(format!("consume m={} after={} f={} wi={} n=2 via={}{}", m, after, f, wi as u8, via, w));
+        g.count(&format!("consume.{}", m.split('.').next().unwrap()));
     }
     // placeholders left behind after a prefix of an owned iteration, source held by &mut
     let ks: Vec<usize> = if all { vec![0, g.rng.below(total + 1), total, total + 2] } else { vec![g.rng.below(total + 2)] };
@@ -2201,6 +2482,16 @@ fn emit_matrix_ops(g: &mut Gen, rows: usize, cols: usize, ads: &[MAd], all: bool
             g.op(format!("iter k=diag f={} wi=0 n={} via={}", f, std::cmp::min(rows, cols) + 3, via));
             g.count("matrix.diag");
         }
+    }
+    for m in random_consumers(g, total, all) {
+        let k = *g.rng.pick(&["rowmajor", "colmajor"]);
+        let f = *g.rng.pick(&FLAVOURS);
+        let wi = g.rng.chance(1, 2);
+        let via = if f == "owned" && g.rng.chance(1, 2) { "from_numeric" } else { "from" };
+        let w = wvia(g, wi);
+        let after = g.rng.below(total + 2);
+        g.op(format!("consume m={} after={} k={} f={} wi={} n=2 via={}{}", m, after, k, f, wi as u8, via, w));
+        g.count(&format!("consume.{}", m.split('.').next().unwrap()));
     }
     for k in ["rowmajor", "colmajor"] {
         let n = g.rng.below(total + 2);
